@@ -282,22 +282,35 @@ def enclosing(sf, line):
 
 
 def check_direct_sum(w, rep):
-    G = w.it.binop(ast.Mult(), w.G("SO3Mrp"), w.G("R3"), None)
-    alg = w.attr(G, "algebra")
-    n = w.attr(alg, "n_param")
-    x = w.sym("x", n)
-    e = w.elem(alg, x)
-    ok, AD = guarded(w, rep, "C04.direct-sum", "so3 x r3 ad", lambda: w.call(e, "ad"))
-    if ok:
-        parts = [w.call(w.elem(w.G("so3"), w.sl(x, 0, 3)), "ad"), w.call(w.elem(w.G("r3"), w.sl(x, 3, 6)), "ad")]
-        okp = all(isinstance(p, MatVal) for p in parts)
-        if okp:
-            verdict(rep, "C04.direct-sum", "so3 x r3: ad = diagcat(ad_so3, ad_r3) in factor order", AD, cm.diagcat(*parts), (), w.method_where(alg, "adjoint")[:2],
-                    "direct-sum ad is not block diagonal in factor order")
-            rep.check("C04.direct-sum", "so3 x r3: ad is %dx%d" % (n, n), AD.shape == (n, n), "direct-sum ad has shape %s for %d parameters (a factor's ad has the wrong size)" % (AD.shape, n),
-                      where=w.method_where(alg, "adjoint")[:2])
-    okb, _ = guarded(w, rep, "C04.direct-sum", "so3 x r3 bracket", lambda: w.call(alg, "bracket", left=e, right=e))
-    okA, _ = guarded(w, rep, "C04.direct-sum", "SO3Mrp x R3 Ad", lambda: w.call(w.elem(G, w.sym("X", w.attr(G, "n_param"))), "Ad"))
+    """ad of a direct sum is block diagonal in factor order, on the factors' own slices.  Products with a non-abelian
+    factor in second and third position are included: an offset table that is wrong from the second factor on is
+    invisible when the later factors are R^n (their ad blocks are zero)."""
+    for names in (["SO3Mrp", "R3"], ["R3", "SO3Quat"], ["SE2", "SO3Mrp", "SE3Mrp"]):
+        label = " x ".join(names)
+        G = w.G(names[0])
+        for nm in names[1:]:
+            G = w.it.binop(ast.Mult(), G, w.G(nm), None)
+        alg = w.attr(G, "algebra")
+        n = w.attr(alg, "n_param")
+        x = w.sym("x", n)
+        e = w.elem(alg, x)
+        W = w.method_where(alg, "adjoint")[:2]
+        ok, AD = guarded(w, rep, "C04.direct-sum", "%s ad" % label, lambda: w.call(e, "ad"))
+        if ok:
+            parts, off = [], 0
+            for nm in names:
+                fa = w.attr(w.G(nm), "algebra")
+                k = w.attr(fa, "n_param")
+                parts.append(w.call(w.elem(fa, w.sl(x, off, off + k)), "ad"))
+                off += k
+            if all(isinstance(p_, MatVal) for p_ in parts) and off == n:
+                verdict(rep, "C04.direct-sum", "%s: ad = diagcat of the factors' ad on their own slices, in factor order" % label, AD, cm.diagcat(*parts), (), W,
+                        "direct-sum ad is not block diagonal in factor order")
+                rep.check("C04.direct-sum", "%s: ad is %dx%d" % (label, n, n), AD.shape == (n, n), "direct-sum ad has shape %s for %d parameters (a factor's ad has the wrong size)" % (AD.shape, n), where=W)
+            else:
+                rep.fail("C04.direct-sum", "%s: algebra dimension is the sum of the factors' dimensions" % label, "algebra has %d parameters, factors sum to %d" % (n, off), where=W)
+        okb, BR = guarded(w, rep, "C04.direct-sum", "%s bracket" % label, lambda: w.call(alg, "bracket", left=e, right=w.elem(alg, w.sym("y", n))))
+        guarded(w, rep, "C04.direct-sum", "%s Ad" % label, lambda: w.call(w.elem(G, w.sym("X", w.attr(G, "n_param"))), "Ad"))
 
 
 def run(w, rep, tier):
@@ -308,6 +321,7 @@ def run(w, rep, tier):
     rep.rule("C04.hom", "Ad(XY)=Ad(X)Ad(Y), Ad(X^-1)Ad(X)=I where canonical forms decide it")
     rep.rule("C04.block", "Ad of SE(3)/SE_2(3): diagonal blocks R, (translation_i, rotation) block hat(t_i) @ R as a matrix product, zero elsewhere (L9)")
     rep.rule("C04.elementwise", "no element-wise product of two true matrices while building any Lie group/algebra operation")
+    rep.rule("C04.table", "necessary for Ad_exp(x) = expm(ad_x): the series table switches at |x| < eps between the Taylor polynomial and the closed form of the same formula (shared with C06.table)")
     rep.rule("C04.direct-sum", "direct-sum ad is diagcat of the factors' ad in factor order and is n x n")
     for nm in ALGEBRAS7:
         check_algebra(w, rep, nm, w.G(nm))
@@ -327,5 +341,9 @@ def run(w, rep, tier):
     rep.floor("C04.API", 12 + 7 * 2)
     rep.floor("C04.TAB", 7 * 4)
     rep.floor("C04.conj", 6)
-    rep.undecided_clause("Ad_exp(x) = expm(ad_x) (transcendental)")
+    # Ad_exp(x) = expm(ad_x) is not decided, but it needs exp to be the exponential also below the series switch and for
+    # negative arguments: the series-table rule (same formula on both branches, |x| < eps) is a necessary condition
+    from .c06 import check_table
+    check_table(w, rep, rule="C04.table")
+    rep.undecided_clause("Ad_exp(x) = expm(ad_x) (transcendental); only the series-table condition it needs is decided (C04.table)")
     rep.undecided_clause("conjugation/homomorphism clauses for the DCM parameterisation (needs orthonormality of nine free symbols) and wherever the report says n/a")
